@@ -249,4 +249,19 @@ theorem established_push_fits {p : PS} (h : Inv p) {x i j : Nat} (e : Establishe
   | true => rfl
   | false => have := dr.hrx hr; rw [ha] at this; cases this
 
+/-- No stall on an established flow: a writer at `a` without credit always has something on its
+    way — a `Push` of the flow still in transit to `b`, a frame in `b`'s receive queue (its reader can
+    read), or an `Acknowledge` of the flow in transit back to `a`. -/
+theorem established_blocked_has_work {p : PS} (h : Inv p) {x i j : Nat} (e : Established p x i j)
+    (oA : Obj) (hoA : p.a.objs[i]? = some oA) (hc : oA.credit = 0) :
+    pushesOf x (pathAB p) ≠ [] ∨ (∃ oB, p.b.objs[j]? = some oB ∧ oB.rxq ≠ []) ∨ acksOf x (pathBA p) ≠ [] := by
+  obtain ⟨oA', oB, l, hoA', hoB, _, _, _, _, d, _, _⟩ := established_dir h e
+  rw [hoA] at hoA'; cases hoA'
+  have := Link.blocked_has_work l d.inv (by rw [d.hcredit]; exact hc)
+  rw [d.hwire, d.hrxq, d.hacks] at this
+  rcases this with h1 | h1 | h1
+  · exact Or.inl h1
+  · exact Or.inr (Or.inl ⟨oB, hoB, h1⟩)
+  · exact Or.inr (Or.inr h1)
+
 end Penguin.Pair
